@@ -20,6 +20,7 @@ DEPS = ['Scalars/DateTime.vo', 'Scalars/Timestamp.vo']
 TS_LIMIT = (1 << 53) // 1000          # xml -> py -> xml is claimed for 0 <= n, n * 1000 < 2^53
 TS_FLOAT_LIMIT = Fraction(1 << 50, 1000)   # py -> xml -> py (< 1 ms) is claimed for 1000 x <= 2^50
 
+XML_WS = ' \t\r\n'
 XSD_INT = re.compile(r'[ \t\r\n]*[+-]?[0-9]+[ \t\r\n]*\Z')
 XSD_DEC = re.compile(r'[ \t\r\n]*[+-]?([0-9]+(\.[0-9]*)?|\.[0-9]+)[ \t\r\n]*\Z')
 XSD_DUR = re.compile(r'PT(?=[0-9])([0-9]+H)?([0-9]+M)?([0-9]+(\.[0-9]+)?S)?\n?\Z')
@@ -27,7 +28,10 @@ XSD_DT = re.compile(r'-?([1-9][0-9]{3,}|0[0-9]{3})'
                     r'(-(0[1-9]|1[0-2])(-(0[1-9]|[12][0-9]|3[01])'
                     r'(T(([01][0-9]|2[0-3]):[0-5][0-9]:[0-5][0-9](\.[0-9]+)?|24:00:00(\.0+)?))?)?)?'
                     r'(Z|[+-]((0[0-9]|1[0-3]):[0-5][0-9]|14:00))?\n?\Z')
-ERRS = ('REJECT', 'OVERFLOW')
+ERR_PREFIX = ('REJECT', 'OVERFLOW', 'CRASH', 'BADTYPE', 'NONFINITE', 'TIMEOUT', 'SKIPPED')
+US = Fraction(1, 10 ** 6)
+DUR_MAX = Fraction(86400 * 10 ** 9)            # timedelta.max + 1 us, in seconds
+DUR_1US_RANGE = Fraction(1 << 31)              # |parsed - exact| < 1 us is claimed (and proved) for values up to 2^31 s
 
 
 def slit(s: str) -> str:
@@ -38,7 +42,118 @@ def slit(s: str) -> str:
 
 
 def is_err(x):
-    return isinstance(x, str) and (x in ERRS or x.startswith('CRASH') or x.startswith('NONFINITE'))
+    return isinstance(x, str) and x.startswith(ERR_PREFIX)
+
+
+def is_reject(x):
+    """the converter refused the value by raising ValueError / ArithmeticError / OverflowError"""
+    return isinstance(x, str) and (x == 'REJECT' or x == 'OVERFLOW')
+
+
+# --------------------------------------------------------------------------------------------- reference semantics
+# Independent of the library AND of python's int() / float() / Decimal() / datetime parsers: explicit ASCII character
+# classes, exact integer / Fraction arithmetic.  None = outside the lexical space.
+def dval(ds: str) -> int:
+    v = 0
+    for c in ds:
+        k = ord(c) - 48
+        if not 0 <= k <= 9:
+            raise AssertionError(ds)
+        v = v * 10 + k
+    return v
+
+
+REF_INT = re.compile(r'([+-]?)([0-9]+)')
+REF_DEC = re.compile(r'([+-]?)(?:([0-9]+)(?:\.([0-9]*))?|\.([0-9]+))')
+REF_DUR = re.compile(r'PT(?:([0-9]+)H)?(?:([0-9]+)M)?(?:([0-9]+)(?:\.([0-9]+))?S)?\n?')
+REF_DT = re.compile(r'(?P<y>-?(?:[1-9][0-9]{3,}|0[0-9]{3}))'
+                    r'(?:-(?P<mo>0[1-9]|1[0-2])(?:-(?P<d>0[1-9]|[12][0-9]|3[01])'
+                    r'(?:T(?:(?P<h>[01][0-9]|2[0-3]):(?P<mi>[0-5][0-9]):(?P<s>[0-5][0-9])(?:\.(?P<f>[0-9]+))?|(?P<eod>24:00:00(?:\.0+)?)))?)?)?'
+                    r'(?:(?P<z>Z)|(?P<sg>[+-])(?P<th>0[0-9]|1[0-4]):(?P<tm>[0-5][0-9]))?\n?')
+
+
+def ref_int(s):
+    m = REF_INT.fullmatch(s.strip(XML_WS))
+    return None if m is None else (-1 if m.group(1) == '-' else 1) * dval(m.group(2))
+
+
+def ref_dec(s):
+    m = REF_DEC.fullmatch(s.strip(XML_WS))
+    if m is None:
+        return None
+    ip, fp = (m.group(2), m.group(3) or '') if m.group(2) is not None else ('', m.group(4))
+    return (-1 if m.group(1) == '-' else 1) * Fraction(dval(ip + fp), 10 ** len(fp))
+
+
+def ref_dur(s):
+    """exact value in seconds"""
+    m = REF_DUR.fullmatch(s)
+    if m is None or (m.group(1) is None and m.group(2) is None and m.group(3) is None):
+        return None
+    h, mi, sec, fr = m.groups()
+    return dval(h or '') * 3600 + dval(mi or '') * 60 + dval(sec or '') + Fraction(dval(fr or ''), 10 ** len(fr or ''))
+
+
+def ref_dt(s):
+    """(year, month, day, (hour, minute, exact second) | None, end_of_day, tz minutes | None)"""
+    m = REF_DT.fullmatch(s)
+    if m is None:
+        return None
+    g = m.groupdict()
+    y = g['y']
+    year = -dval(y[1:]) if y[0] == '-' else dval(y)
+    t = None
+    if g['h'] is not None:
+        t = (dval(g['h']), dval(g['mi']), dval(g['s']) + Fraction(dval(g['f'] or ''), 10 ** len(g['f'] or '')))
+    tz = None
+    if g['z']:
+        tz = 0
+    elif g['sg']:
+        tz = dval(g['th']) * 60 + dval(g['tm'])
+        if tz > 840:
+            return None
+        tz = -tz if g['sg'] == '-' else tz
+    return (year, g['mo'] and dval(g['mo']), g['d'] and dval(g['d']), t, g['eod'] is not None, tz)
+
+
+def lenient(kind, s):
+    """would a lenient parser built from python's own constructors take this string?  (only for the histogram: how many of
+    the invalid forms are of the dangerous sort)"""
+    try:
+        if kind in ('integer', 'timestamp'):
+            int(s)
+        elif kind == 'decimal':
+            Decimal(s)
+        elif kind == 'duration':
+            m = re.fullmatch(r'\s*[Pp][Tt]\s*(?:(\S+?)[Hh])?(?:(\S+?)[Mm])?(?:(\S+?)[Ss])?\s*', s)
+            if m is None or not any(m.groups()):
+                return False
+            for g in m.groups():
+                if g is not None:
+                    float(g.replace(',', '.'))
+        elif kind == 'datetime':
+            import datetime
+            t = s.strip()
+            try:
+                datetime.datetime.fromisoformat(t.upper())
+            except ValueError:
+                datetime.datetime.strptime(t, '%Y-%m')
+        else:
+            return False
+        return True
+    except Exception:  # noqa: BLE001
+        return False
+
+
+def bin_len(n):
+    return '0' if n == 0 else '1-6' if n <= 6 else '7-9' if n <= 9 else '10-18' if n <= 18 else '19-40' if n <= 40 else '41+'
+
+
+def hist(xs):
+    h = {}
+    for x in xs:
+        h[x] = h.get(x, 0) + 1
+    return dict(sorted(h.items()))
 
 
 # --------------------------------------------------------------------------------------------- generators
@@ -50,8 +165,28 @@ def rdigits(rng, n, lead_nonzero=False):
 
 
 WS = [' ', '\t', '\r', '\n']
-JUNK = ['_', 'E5', 'e-3', 'x', '.', '-', '+', ' ', 'NaN', 'Infinity', 'inf', ',', '٣', '１', ' ', '\x0b', '\x1f', ' ',
+JUNK = ['_', 'E5', 'e-3', 'x', '.', '-', '+', ' ', 'NaN', 'Infinity', 'inf', ',', '٣', '１', '\xa0', '\x0b', '\x1f', ' ',
         'true', '0x', 'T', 'P', 'S', 'H', 'M', 'Z', ':', '\n']
+# what python's int() / float() / Decimal() strip or read as digits, and XML does not
+PY_WS = ['\x0b', '\x0c', '\x1c', '\x1d', '\x1e', '\x1f', '\x85', '\xa0', ' ', ' ', ' ', '　']
+NONASCII_DIGITS = ['٠١٢٣٤٥٦٧٨٩', '０１２３４５６７８９',
+                   '०१२३४५६७८९', '۰۱۲۳۴۵۶۷۸۹']
+EXPONENTS = ['E5', 'e5', 'E+2', 'e-3', 'E0', 'e+0', 'E-1', 'e1', 'E18', 'e-18']
+GARBAGE_TAIL = ['abc', 'x', ',0', ';', '\x00', '%', 'L', 'f', 'd', 'j', 'n', '/2', ' 1', '#', '..', 'e', 'E', '_', '²', '﻿', "'"]
+GARBAGE_HEAD = ['x', '$', '#', '0x', "'", '=', '\x00', 'a', '﻿', '_', ',', '(', 'u']
+COMMON_NM = ['underscore', 'exponent', 'nonascii-digit-first', 'nonascii-digit-inner', 'nonascii-digit-last', 'nonascii-digit-appended',
+             'py-ws-lead', 'py-ws-trail', 'inner-ws', 'trailing-garbage', 'leading-garbage', 'sign-misplaced', 'unicode-sign']
+NM = {
+    'integer': COMMON_NM + ['special-word', 'radix-prefix', 'double-sign', 'sign-space', 'decimal-point', 'empty'],
+    'timestamp': COMMON_NM + ['special-word', 'radix-prefix', 'double-sign', 'sign-space', 'decimal-point', 'empty'],
+    'decimal': COMMON_NM + ['special-word', 'radix-prefix', 'double-sign', 'sign-space', 'comma', 'two-dots', 'no-digits'],
+    'duration': COMMON_NM + ['xml-ws-lead', 'xml-ws-trail', 'lowercase', 'comma', 'missing-T', 'date-field', 'field-order', 'field-repeat',
+                             'fraction-on-HM', 'empty-fraction', 'empty-seconds', 'no-designator', 'negative', 'double-newline',
+                             'special-word'],
+    'datetime': COMMON_NM + ['xml-ws-lead', 'xml-ws-trail', 'space-separator', 'lowercase', 'basic-format', 'short-time', 'comma',
+                             'tz-no-colon', 'tz-hour-only', 'out-of-range', 'short-field', 'eod-not-zero', 'plus-year',
+                             'year-leading-zero', 'double-newline', 'time-without-day'],
+}
 
 
 def mutate(rng, s):
@@ -68,23 +203,164 @@ def mutate(rng, s):
     return s
 
 
+def near_miss(rng, kind, s, label):
+    """s: a valid lexical form (numbers: without surrounding white space).  Returns a form that a lenient parser built on
+    python's int() / float() / Decimal() / datetime would typically still take, or that starts / ends like a valid one."""
+    runs = [(m.start(), m.end()) for m in re.finditer(r'[0-9]+', s)]
+    a, b = rng.choice(runs)
+    alt = rng.choice(NONASCII_DIGITS)
+    numeric = kind in ('integer', 'timestamp', 'decimal')
+    if label == 'underscore':
+        if b - a >= 2:
+            i = rng.randrange(a + 1, b)
+            return s[:i] + '_' + s[i:]
+        return s[:b] + '_' + s[a:b] + s[b:]
+    if label == 'exponent':
+        if kind == 'datetime':
+            a, b = runs[-1] if 'T' in s else (a, b)
+        return s[:b] + rng.choice(EXPONENTS) + s[b:]
+    if label == 'nonascii-digit-first':
+        return s[:a] + alt[int(s[a])] + s[a + 1:]
+    if label == 'nonascii-digit-inner':
+        i = rng.randrange(a + 1, b) if b - a >= 2 else a
+        if b - a < 2:      # make room: a two digit run whose second digit is replaced
+            return s[:b] + alt[rng.randrange(10)] + s[b:]
+        return s[:i] + alt[int(s[i])] + s[i + 1:]
+    if label == 'nonascii-digit-last':
+        return s[:b - 1] + alt[int(s[b - 1])] + s[b:]
+    if label == 'nonascii-digit-appended':
+        return s[:b] + alt[rng.randrange(10)] + s[b:]
+    if label == 'py-ws-lead':
+        return rng.choice(PY_WS) + s
+    if label == 'py-ws-trail':
+        return s + rng.choice(PY_WS)
+    if label == 'inner-ws':
+        i = rng.randrange(1, len(s)) if len(s) > 1 else 1
+        if len(s) == 1:
+            return s + ' ' + s
+        return s[:i] + rng.choice(WS + [' ', ' ', '\xa0']) + s[i:]
+    if label == 'trailing-garbage':
+        return s + rng.choice(GARBAGE_TAIL)
+    if label == 'leading-garbage':
+        return rng.choice(GARBAGE_HEAD) + s
+    if label == 'sign-misplaced':
+        if numeric:
+            return s + rng.choice('+-') if rng.random() < 0.5 else s[:b] + rng.choice('+-') + s[b:] + '1'
+        return s[:a] + rng.choice('+-') + s[a:]
+    if label == 'unicode-sign':
+        sg = rng.choice(['−', '＋', '－', '–', '±'])
+        return (sg + s.lstrip('+-')) if numeric else s[:a] + sg + s[a:]
+    if label == 'special-word':
+        w = rng.choice(['NaN', 'nan', 'Infinity', 'infinity', 'inf', '-inf', '+Inf', 'sNaN', 'nan123', 'INF', '-Infinity', 'None', 'null', 'true'])
+        if kind == 'duration':
+            return 'PT' + w + 'S'
+        return w
+    if label == 'radix-prefix':
+        return rng.choice(['0x', '0X', '0o', '0b', '0B', '#x', '&#x']) + rng.choice(['1F', '17', '11', '0', s.lstrip('+-')])
+    if label == 'double-sign':
+        return rng.choice(['++', '--', '+-', '-+']) + s.lstrip('+-')
+    if label == 'sign-space':
+        return rng.choice('+-') + rng.choice([' ', '\t', '\n']) + s.lstrip('+-')
+    if label == 'decimal-point':
+        return s + rng.choice(['.0', '.', '.5', '.00', '.0e0'])
+    if label == 'empty':
+        return rng.choice(['', ' ', '\n', '+', '-', '\t \t'])
+    if label == 'comma':
+        if kind == 'decimal':
+            return s.replace('.', ',') if '.' in s else s + ',5'
+        return s.replace('.', ',', 1) if '.' in s else s[:b] + ',5' + s[b:]
+    if label == 'two-dots':
+        return (s + '.5') if '.' in s else s + '.1.2'
+    if label == 'no-digits':
+        return rng.choice(['.', '+.', '-.', '-', '+', '', ' . ', '..', '.e1', 'e5', '.E5'])
+    if label == 'xml-ws-lead':
+        return rng.choice([' ', '\t', '\r', '\n', '  ']) + s
+    if label == 'xml-ws-trail':
+        return s + rng.choice([' ', '\t', '\r', '\r\n', ' \n', '\n '])
+    if label == 'double-newline':
+        return s.rstrip('\n') + '\n\n'
+    if label == 'lowercase':
+        t = s.lower()
+        return t if t != s else s.replace('-', 't', 1)
+    # ---- durations
+    if label == 'missing-T':
+        return s.replace('PT', 'P', 1)
+    if label == 'date-field':
+        return s.replace('PT', rng.choice(['P1DT', 'P1Y', 'P1M', 'P0DT', 'P1W', 'P1Y2M3DT']), 1)
+    if label == 'field-order':
+        return 'PT' + rdigits(rng, 1) + rng.choice(['S', 'M']) + rdigits(rng, 2) + rng.choice(['H', 'M'])
+    if label == 'field-repeat':
+        x = rng.choice('HMS')
+        return 'PT' + rdigits(rng, 2) + x + rdigits(rng, 1) + x
+    if label == 'fraction-on-HM':
+        return 'PT' + rdigits(rng, 1) + '.' + rdigits(rng, 1) + rng.choice(['H', 'M', 'H1S', 'M1S'])
+    if label == 'empty-fraction':
+        return 'PT' + rdigits(rng, 2) + '.S'
+    if label == 'empty-seconds':
+        return rng.choice(['PT.' + rdigits(rng, 2) + 'S', 'PTS', 'PTH', 'PT1H.5S', 'PTM'])
+    if label == 'no-designator':
+        return rng.choice(['PT' + rdigits(rng, 2), 'PT1H' + rdigits(rng, 2), 'PT' + rdigits(rng, 1) + '.' + rdigits(rng, 3), rdigits(rng, 2) + 'S', 'T1S', 'P', 'PT'])
+    if label == 'negative':
+        return rng.choice(['-' + s, s.replace('PT', 'PT-', 1), s.replace('PT', 'P-T', 1)])
+    # ---- date / time
+    if label == 'space-separator':
+        return s.replace('T', ' ', 1) if 'T' in s else s.replace('-', ' ', 1) if '-' in s[1:] else s + ' '
+    if label == 'basic-format':
+        return rng.choice(['20200506', '20200506T101112', '2020-05-06T101112', '202005', '2020-0506', '2020-W01-1', '2020-127'])
+    if label == 'short-time':
+        return rng.choice(['2020-05-06T10:11', '2020-05-06T10', '2020-05-06T10:11Z', '2020-05-06T', '2020-05-06T10:11:', '2020-05-06T1:02:03'])
+    if label == 'tz-no-colon':
+        return rng.choice(['2020-05-06T10:11:12+0100', '2020-05-06+0100', '2020+0100', '2020-05-0600', '2020-05-06T10:11:12-0530'])
+    if label == 'tz-hour-only':
+        return rng.choice(['2020-05-06T10:11:12+01', '2020-05-06-05', '2020-05-06T10:11:12+1', '2020-05+1:00', '2020-05-06T10:11:12UTC',
+                           '2020-05-06T10:11:12 Z', '2020-05-06T10:11:12GMT', '2020-05-06T10:11:12+01:0', '2020-05-06T10:11:12+001:00'])
+    if label == 'out-of-range':
+        return rng.choice(['2020-13-01', '2020-00-10', '2020-01-00', '2020-01-32', '2020-05-06T24:00:01', '2020-05-06T25:00:00', '2020-05-06T10:60:00',
+                           '2020-05-06T10:11:60', '2020-05-06T10:11:61.5', '2020-05-06+14:01', '2020-05-06-15:00', '2020-05-06+13:60', '2020-05-06T24:01:00'])
+    if label == 'short-field':
+        return rng.choice(['2020-5-06', '2020-05-6', '202-05-06', '20-05-06', '2020-05-06T1:02:03', '2020-05-06T10:1:03', '2020-05-06T10:11:3',
+                           '2020-005-06', '2020-05-006', '2020-05-06T010:11:12', '2020-05-06T10:11:012'])
+    if label == 'eod-not-zero':
+        return rng.choice(['2020-05-06T24:00:00.1', '2020-05-06T24:00:00.', '2020-05-06T24:00:00.01', '2020-05-06T24:00', '2020-05T24:00:00', '2020-05-06T24:00:00.0001Z'])
+    if label == 'plus-year':
+        return '+' + s.lstrip('-')
+    if label == 'year-leading-zero':
+        return ('-' if s.startswith('-') else '') + '0' + s.lstrip('-') if len(re.match(r'-?([0-9]+)', s).group(1)) >= 4 else s
+    if label == 'time-without-day':
+        return rng.choice(['2020-05T10:11:12', '2020T10:11:12', 'T10:11:12', '10:11:12', '2020--06', '--05-06', '2020-05-'])
+    raise AssertionError(label)
+
+
 def ws(rng):
     return ''.join(rng.choice(WS) for _ in range(rng.choice([0, 0, 0, 0, 1, 2])))
 
 
+INT_LENS = [1, 1, 2, 3, 5, 6, 7, 9, 10, 13, 18, 19, 20, 25, 40]
+FRAC_LENS = [1, 2, 3, 6, 6, 7, 7, 8, 9, 10, 12, 18, 19, 20, 30]
+
+
+def gen_int_core(rng, lens=INT_LENS):
+    return rng.choice(['', '', '', '-', '+']) + rng.choice(['', '', '0', '00']) + rdigits(rng, rng.choice(lens))
+
+
 def gen_int_lex(rng):
-    s = ws(rng) + rng.choice(['', '', '', '-', '+']) + rng.choice(['', '0', '00']) + rdigits(rng, rng.choice([1, 1, 2, 3, 5, 9, 13, 19, 25])) + ws(rng)
-    return mutate(rng, s) if rng.random() < 0.3 else s
+    s = ws(rng) + gen_int_core(rng) + ws(rng)
+    return mutate(rng, s) if rng.random() < 0.2 else s
+
+
+def gen_dec_core(rng):
+    ip = rng.choice(['', '0', '00', '']) + rdigits(rng, rng.choice([0, 1, 1, 2, 4, 7, 9, 10, 17, 18, 20, 40]))
+    s = rng.choice(['', '', '', '-', '+']) + ip
+    if rng.random() < 0.7:
+        s += '.' + rdigits(rng, rng.choice([0, 1, 2, 3, 6, 7, 9, 10, 12, 18, 19, 25, 40])) + rng.choice(['', '', '0', '000'])
+    if not re.search('[0-9]', s):
+        s += rng.choice(['0', '5', '00'])
+    return s
 
 
 def gen_dec_lex(rng):
-    ip = rng.choice(['', '0', '00', '']) + rdigits(rng, rng.choice([0, 1, 1, 2, 4, 9, 17, 18, 20]))
-    s = ws(rng) + rng.choice(['', '', '', '-', '+']) + ip
-    r = rng.random()
-    if r < 0.7:
-        s += '.' + rdigits(rng, rng.choice([0, 1, 2, 3, 6, 12, 18, 19])) + rng.choice(['', '', '0', '000'])
-    s += ws(rng)
-    return mutate(rng, s) if rng.random() < 0.3 else s
+    s = ws(rng) + gen_dec_core(rng) + ws(rng)
+    return mutate(rng, s) if rng.random() < 0.2 else s
 
 
 def gen_dec_padded(rng):
@@ -124,24 +400,45 @@ def gen_dec_val(rng):
     return [neg, digs, e]
 
 
-def gen_dur_lex(rng):
+def gen_dur_fraction(rng):
+    """fraction digits of a seconds field: every length, values whose digits beyond the sixth are zeros (10 ms written with
+    seven digits), next to the rounding tie of the seventh digit, sub-microsecond values"""
+    r = rng.random()
+    if r < 0.45:
+        return rdigits(rng, rng.choice(FRAC_LENS))
+    if r < 0.6:
+        return (rdigits(rng, rng.randint(1, 6)).ljust(6, '0') + '0' * rng.choice([1, 1, 2, 3, 6, 12]))
+    if r < 0.8:
+        return rdigits(rng, 6) + rng.choice(['5', '50', '500000', '4999999999999999', '5000000000000001', '49', '51', '4', '6', '05', '95'])
+    if r < 0.9:
+        return '000000' + rng.choice(['1', '4', '5', '6', '9', '04', '49', '51', '99', '500', '0001'])
+    return rdigits(rng, rng.choice([7, 8, 9])).rstrip('0') or '1'
+
+
+def gen_dur_core(rng):
     s = 'PT'
     if rng.random() < 0.5:
-        s += rng.choice(['', '0']) + rdigits(rng, rng.choice([1, 1, 2, 4, 9])) + 'H'
+        s += rng.choice(['', '0']) + rdigits(rng, rng.choice([1, 1, 2, 4, 7, 9])) + 'H'
     if rng.random() < 0.5:
-        s += rdigits(rng, rng.choice([1, 2, 2, 5])) + 'M'
-    if rng.random() < 0.75:
-        s += rng.choice(['', '', '0', '00']) + rdigits(rng, rng.choice([1, 1, 2, 2, 3, 5, 6, 8, 16, 17]))
-        if rng.random() < 0.6:
-            s += '.' + rdigits(rng, rng.choice([1, 2, 3, 6, 6, 7, 9, 20]))
+        s += rdigits(rng, rng.choice([1, 2, 2, 5, 8])) + 'M'
+    if rng.random() < 0.8 or s == 'PT':
+        s += rng.choice(['', '', '0', '00']) + rdigits(rng, rng.choice([1, 1, 2, 2, 3, 5, 6, 8, 9, 10, 10, 12, 13, 14, 17]))
+        if rng.random() < 0.7:
+            s += '.' + gen_dur_fraction(rng)
         s += 'S'
+    return s
+
+
+def gen_dur_lex(rng):
+    s = gen_dur_core(rng)
     r = rng.random()
     if r < 0.08:
         s += '\n'
     elif r < 0.1:
         s = rng.choice(['PT' + '9' * rng.randint(10, 22) + 'H', 'PT' + '9' * rng.randint(12, 25) + 'M', 'PT' + '9' * rng.randint(14, 15) + 'S',
-                        'P1Y', 'P1D', 'PT', 'P', '-PT1S', 'P1DT1S'])
-    return mutate(rng, s) if rng.random() < 0.3 else s
+                        'P1Y', 'P1D', 'PT', 'P', '-PT1S', 'P1DT1S', 'PT86399999999999.999999S', 'PT86399999999999.9999996S',
+                        'PT86400000000000S', 'PT23999999999H59M59.9999994S'])
+    return mutate(rng, s) if rng.random() < 0.15 else s
 
 
 def gen_dur_val(rng):
@@ -183,8 +480,9 @@ def gen_dt_val(rng):
     return [y, mo, d, t, eod, tz]
 
 
-def dt_string(v):
-    """canonical string of a generated value (harness-side, only used to derive lexical test strings)"""
+def dt_string(v, frac=None):
+    """canonical string of a generated value (harness-side, only used to derive lexical test strings); frac: fraction
+    digits of the second field to use instead of the canonical ones"""
     y, mo, d, t, eod, tz = v
     s = ('-' if y < 0 else '') + f'{abs(y):04d}'
     if mo is not None:
@@ -195,15 +493,23 @@ def dt_string(v):
         s += 'T24:00:00'
     elif t:
         s += f'T{t[0]:02d}:{t[1]:02d}:{t[2] // 10 ** 6:02d}'
-        if t[2] % 10 ** 6:
+        if frac is not None:
+            s += '.' + frac
+        elif t[2] % 10 ** 6:
             s += '.' + f'{t[2] % 10 ** 6:06d}'.rstrip('0')
     if tz is not None:
         s += 'Z' if tz == 0 else ('+' if tz > 0 else '-') + f'{abs(tz) // 60:02d}:{abs(tz) % 60:02d}'
     return s
 
 
+def gen_dt_core(rng):
+    v = gen_dt_val(rng)
+    frac = gen_dur_fraction(rng) if v[3] and rng.random() < 0.45 else None
+    return dt_string(v, frac)
+
+
 def gen_dt_lex(rng):
-    s = dt_string(gen_dt_val(rng))
+    s = gen_dt_core(rng)
     r = rng.random()
     if r < 0.12:
         s += rng.choice(['.0', '.000', '.1234567', '.50', '\n', 'Z', '+14:00', '+14:01', '-00:00', '+00:00', '-14:00', '+13:59', '.', '+15:00'])
@@ -211,7 +517,21 @@ def gen_dt_lex(rng):
         s = rng.choice(['0', '00', '000']) + s
     elif r < 0.25:
         s = s.replace('T', rng.choice(['T24:00:00', 'T24:00:00.0', 'T24:00:01', 't', ' ']), 1)
-    return mutate(rng, s) if rng.random() < 0.35 else s
+    return mutate(rng, s) if rng.random() < 0.2 else s
+
+
+def with_near_misses(rng, kind, plain, core_gen, per_label, wrap_ws=False):
+    """[(label, string)]: the plain stream (label 'gen': valid forms and random mutations), then per_label near misses of
+    every class of NM[kind], each derived from a fresh valid form"""
+    out = [('gen', s) for s in plain]
+    for label in NM[kind]:
+        for _ in range(per_label):
+            core = core_gen(rng)
+            s = near_miss(rng, kind, core, label)
+            if wrap_ws and rng.random() < 0.3:     # XML white space around a numeric near miss must not rescue it
+                s = rng.choice(WS) + s + rng.choice(WS)
+            out.append((label, s))
+    return out
 
 
 def float_me(x: float):
@@ -266,6 +586,63 @@ def same_value(a: int, s: int, m: int, e: int) -> bool:
     return a == (m << k) if k >= 0 else (a << -k) == m
 
 
+# --------------------------------------------------------------------------------------------- implementation run
+SKIP = 'SKIPPED:stream-crashed'
+PLACEHOLDER = {'ts_ns': [0, 0, -1, SKIP], 'ts_floats': [SKIP], 'ts_exact': SKIP, 'ts_lex': SKIP, 'dec_vals': [SKIP, None], 'dec_lex': [SKIP, None],
+               'int_vals': [SKIP, None], 'int_lex': SKIP, 'bool_lex': SKIP, 'dur_vals': [SKIP, None, None, None], 'dur_lex': [SKIP, None],
+               'dt_vals': [SKIP, None, None], 'dt_lex': [SKIP, None]}
+
+
+def is_skip(x):
+    return isinstance(x, str) and x.startswith('SKIPPED')
+
+
+def run_impl(ctx, payload):
+    """The implementation script guards every call into the library, so normally this is one subprocess.  Should the
+    process die all the same (interpreter killed, C level hang), every stream is run on its own, the crashing stream is
+    bisected down to one input (reported as a failing input) and replaced by placeholders that the oracles skip."""
+    impl = ctx.impl('c18_impl', payload, timeout=1500)
+    if impl.get('_crash'):
+        ctx.log('implementation run died, running the streams one by one: ' + str(impl.get('stderr', ''))[-300:])
+        impl = {}
+        for key, val in payload.items():
+            one = ctx.impl('c18_impl', {key: val}, timeout=600)
+            if not one.get('_crash'):
+                impl.update(one)
+                continue
+            culprit = None
+            if isinstance(val, list) and key != 'ts_window':
+                lo, hi = 0, len(val)
+                for _ in range(24):
+                    if hi - lo <= 1:
+                        break
+                    mid = (lo + hi) // 2
+                    if ctx.impl('c18_impl', {key: val[lo:mid]}, timeout=120).get('_crash'):
+                        hi = mid
+                    elif ctx.impl('c18_impl', {key: val[mid:hi]}, timeout=120).get('_crash'):
+                        lo = mid
+                    else:
+                        break
+                if hi - lo == 1:
+                    culprit = val[lo]
+            ctx.broken('correspondence', f'implementation stream {key}', {'died': one.get('stderr', '')[-600:], 'input': culprit})
+            if culprit is not None:
+                ctx.fail(f'{key}: the conversion of {culprit!r} neither returns nor raises: the interpreter dies / hangs',
+                         {'stream': key, 'clause': 'crash'}, {'stream': key, 'case': {'input': culprit}, 'impl_trace': one.get('stderr', '')[-600:]})
+    for key, tb in (impl.get('_stream_errors') or {}).items():
+        ctx.broken('correspondence', f'implementation stream {key} (driver code failed)', tb)
+    for key, val in payload.items():
+        if key in impl or key in ('enum', 'wiring'):
+            continue
+        if key == 'ts_window':
+            n = val[1] - val[0]
+            impl[key] = {'m': [0] * n, 'e': [0] * n, 'back': list(range(val[0], val[1])), 'odd': {}, 'skipped': True}
+        else:
+            impl[key] = [PLACEHOLDER[key]] * len(val)
+    impl.setdefault('enum', [])
+    return impl
+
+
 # --------------------------------------------------------------------------------------------- main
 def run(ctx):
     rng = ctx.rng
@@ -288,27 +665,48 @@ def run(ctx):
         else:
             ts_exact.append(['dec', str(Decimal(rng.randrange(10 ** rng.randint(1, 16))).scaleb(-rng.choice([0, 1, 3, 4, 4, 5, 7])))])
     ts_exact += [['dec', '10.0015'], ['dec', '10.0025'], ['dec', '0.0005'], ['int', '10'], ['dec', '1E+3']]
-    ts_lex = [gen_int_lex(rng) for _ in range(ctx.n(600, 8000))]
+    k = ctx.n(8, 60)          # near misses per class and type
+    ts_core = lambda r: gen_int_core(r, [1, 2, 3, 5, 6, 7, 9, 10, 13, 16, 18, 19, 25, 40])
+    ts_lab = with_near_misses(rng, 'timestamp', [gen_int_lex(rng) for _ in range(ctx.n(600, 8000))] + ['1' + '0' * 40, '9' * 300, '0' * 50 + '7'],
+                              ts_core, k, wrap_ws=True)
+    ts_lex = [s for _, s in ts_lab]
     dec_vals = [gen_dec_val(rng) for _ in range(ctx.n(3000, 36000))]
     dec_vals += [[False, '1', -7], [False, '1', -18], [False, '123456789012345678', -18], [False, '123456789012345678', 3],
                  [True, '0', -1], [False, '0', -15], [False, '123', -3], [False, '0', 3], [True, '1', -7], [False, '1', 18]]
-    dec_lex = [gen_dec_lex(rng) for _ in range(ctx.n(2500, 24000))] + [gen_dec_padded(rng) for _ in range(ctx.n(1200, 12000))] + [
-        '987654321012345670.0', '100000000000000000.000', '-120000000000000000.0', '0010.0', '10.', '1230.00', '0.000000000000000001000'] + ['NaN', 'Infinity', '-Infinity', 'sNaN', '1E5', '1e-3', '1_0', '٣', '.', '', '5.', '.5', '-0', '+.0']
+    dec_plain = [gen_dec_lex(rng) for _ in range(ctx.n(2200, 24000))] + [gen_dec_padded(rng) for _ in range(ctx.n(1200, 12000))] + [
+        '987654321012345670.0', '100000000000000000.000', '-120000000000000000.0', '0010.0', '10.', '1230.00', '0.000000000000000001000',
+        '0.' + '0' * 100 + '1', '1' * 100 + '.' + '2' * 100, '-.' + '9' * 400] + [
+        'NaN', 'Infinity', '-Infinity', 'sNaN', '1E5', '1e-3', '1_0', '٣', '.', '', '5.', '.5', '-0', '+.0', '1.5e-3', '2_0.5', '1٥.5', '0E-15']
+    dec_lab = with_near_misses(rng, 'decimal', dec_plain, gen_dec_core, k, wrap_ws=True)
+    dec_lex = [s for _, s in dec_lab]
     int_vals = [rng.choice([1, -1]) * rng.randrange(1 << rng.randint(1, 80)) for _ in range(ctx.n(600, 8000))] + [0, 1 << 32, 1 << 64, -(1 << 63)]
-    int_lex = [gen_int_lex(rng) for _ in range(ctx.n(1500, 12000))] + ['1_000', '٣', ' 1 ', '\x0b1', '1\x1f', ' 1', '+5', '-0', '', '+', '0x10', '1e3', '1.0']
-    bool_lex = ['true', 'false', '1', '0', 'foo', '', 'True', 'FALSE', ' true', 'true ', '2', '00', '01', 'yes', 'tru', 'truee', '\n1']
+    int_plain = [gen_int_lex(rng) for _ in range(ctx.n(1300, 12000))] + [
+        '1_000', '4_2', '12٣', '1２', '٣', ' 1 ', '\x0b1', '1\x1f', '\xa01', '+5', '-0', '', '+', '0x10', '1e3', '1.0', '1' * 100, '-' + '9' * 400, '0' * 200]
+    int_lab = with_near_misses(rng, 'integer', int_plain, gen_int_core, k, wrap_ws=True)
+    int_lex = [s for _, s in int_lab]
+    bool_lex = ['true', 'false', '1', '0', 'foo', '', 'True', 'FALSE', ' true', 'true ', '2', '00', '01', 'yes', 'tru', 'truee', '\n1',
+                'TRUE', 'False', 'true\n', '\ttrue', 'true\x0b', '\xa01', '1 ', ' 1', '1\n', 'on', 'off', 'no', 'y', 't', 'T', 'f', '+1', '-1', '1.0',
+                '0.0', '1e0', '1_', '١', '１', '０', 'truex', 'xtrue', 'true1', '1true', 'true true', 'true,false', 'None', 'null',
+                'TrUe', 'tRUE', '10', '11', '-0', '0x1', '\x001', 'true\x00']
     bool_lex += [mutate(rng, rng.choice(['true', 'false', '1', '0'])) for _ in range(ctx.n(150, 1500))]
     dur_vals = [gen_dur_val(rng) for _ in range(ctx.n(2500, 24000))]
-    dur_lex = [gen_dur_lex(rng) for _ in range(ctx.n(2500, 24000))] + ['PT١S', 'PT1S\n', 'PT', 'PT0.0000005S', 'PT0.0000015S', 'PT1.0000005S']
+    dur_plain = [gen_dur_lex(rng) for _ in range(ctx.n(2300, 24000))] + [
+        'PT١S', 'PT1S\n', 'PT', 'PT0.0000005S', 'PT0.0000015S', 'PT1.0000005S', 'PT0.0100000S', 'PT1.1234567S', 'PT0.50000000S',
+        'PT0.0000004S', 'PT0.0000001S', 'PT0.' + '0' * 400 + '1S', 'PT0.' + '9' * 400 + 'S', 'PT1.' + '5' * 100 + 'S', 'PT' + '9' * 400 + '.5S',
+        'PT2147483648S', 'PT2147483647.9999999S', 'PT596523H14M7.9999996S']
+    dur_lab = with_near_misses(rng, 'duration', dur_plain, gen_dur_core, k)
+    dur_lex = [s for _, s in dur_lab]
     dt_vals = [gen_dt_val(rng) for _ in range(ctx.n(1500, 15000))]
-    dt_lex = [gen_dt_lex(rng) for _ in range(ctx.n(2500, 24000))] + ['２０２０', '2020-02-31', '2021-02-29', '2020-05:00', '0000', '-0000', '2020-05-06T24:00:00.000Z']
+    dt_plain = [gen_dt_lex(rng) for _ in range(ctx.n(2300, 24000))] + [
+        '２０２０', '2020-02-31', '2021-02-29', '2020-05:00', '0000', '-0000', '2020-05-06T24:00:00.000Z', '2020-05-06T10:11:12.0100000',
+        '2020-05-06T10:11:12.1234567', '2020-05-06T10:11:59.9999999', '2020-05-06T10:11:59.' + '9' * 400, '2020-05-06T10:11:00.' + '0' * 300 + '1Z', '2020-05-06T10:11:59.999999999999999', '2020-05-06T23:59:59.99999999999999999Z',
+        '2020-05-06T10:11:12.5000000+01:00']
+    dt_lab = with_near_misses(rng, 'datetime', dt_plain, gen_dt_core, k)
+    dt_lex = [s for _, s in dt_lab]
     payload = {'ts_window': win, 'ts_ns': ts_ns, 'ts_floats': ts_floats, 'ts_exact': ts_exact, 'ts_lex': ts_lex, 'dec_vals': dec_vals,
                'dec_lex': dec_lex, 'int_vals': [str(n) for n in int_vals], 'int_lex': int_lex, 'bool_lex': bool_lex, 'enum': ctx.seed,
                'dur_vals': dur_vals, 'dur_lex': dur_lex, 'dt_vals': dt_vals, 'dt_lex': dt_lex, 'wiring': 1}
-    impl = ctx.impl('c18_impl', payload, timeout=1500)
-    if impl.get('_crash'):
-        ctx.broken('correspondence', 'implementation run', impl['stderr'])
-        return ctx.finish('implementation run crashed', [], [])
+    impl = run_impl(ctx, payload)
 
     jobs = []
 
@@ -350,7 +748,7 @@ def run(ctx):
                  {'stream': 'ts', 'clause': 'xml_py_xml'},
                  {'stream': 'ts-window', 'case': {'xml': str(n)}, 'impl_trace': {'to_py(m,e)': [w['m'][n - win[0]], w['e'][n - win[0]]], 'to_xml': w['back'][n - win[0]]},
                   'oracle': {'verdict': 'fail', 'clause': 'to_xml(to_py(n)) == n'}})
-    bad_s = [(n, r) for n, r in zip(ts_ns, impl['ts_ns']) if n < TS_LIMIT and r[2] != n]
+    bad_s = [(n, r) for n, r in zip(ts_ns, impl['ts_ns']) if n < TS_LIMIT and r[2] != n and not (len(r) > 3 and is_skip(r[3]))]
     if bad_s:
         n, r = bad_s[0]
         ctx.fail(f'timestamp {n} ms does not survive XML -> Python -> XML: got {r[2]} ({len(bad_s)} sampled values change)',
@@ -362,7 +760,9 @@ def run(ctx):
         lines = [f'W {lo} {min(step, win[1] - lo)}' for lo in range(win[0], win[1], step)]
         model = run_driver(exe, lines, procs)
         bad = []
-        if len(model) != win[1] - win[0]:
+        if w.get('skipped'):
+            pass
+        elif len(model) != win[1] - win[0]:
             bad.append(('length', len(model)))
         else:
             for i, ln in enumerate(model):
@@ -376,6 +776,8 @@ def run(ctx):
         model = run_driver(exe, [f'N {n:b}' for n in ts_ns], procs)
         bad = []
         for n, r, ln in zip(ts_ns, impl['ts_ns'], model):
+            if len(r) > 3 and is_skip(r[3]):
+                continue
             a, s, back = ln.split()
             if not same_value(int(a, 2), int(s), r[0], r[1]) or int(back, 2) != r[2]:
                 bad.append((n, ln, r))
@@ -391,7 +793,12 @@ def run(ctx):
         for (m, e), r, ln in zip(ts_floats, impl['ts_floats'], model):
             x = Fraction(m) * Fraction(2) ** e
             if len(r) != 3:
-                bad.append(((m, e), ln, r))
+                if not is_skip(r[0]):
+                    bad.append(((m, e), ln, r))
+                    if x <= TS_FLOAT_LIMIT:
+                        ctx.fail(f'timestamp {float(x)!r} s cannot be written / read back: {r[0]}', {'stream': 'ts', 'clause': 'py_xml_py'},
+                                 {'stream': 'ts-float', 'case': {'float (mantissa, exponent)': [m, e]}, 'impl_trace': r,
+                                  'oracle': {'verdict': 'fail', 'clause': 'to_py(to_xml(x)) is a float'}})
                 continue
             n2, m2, e2 = r
             mn, ma, ms = ln.split()
@@ -415,8 +822,13 @@ def run(ctx):
         model = run_driver(exe, ['X {:b} {:b}'.format(*Fraction(Decimal(t) if k == 'dec' else int(t)).as_integer_ratio()) for k, t in ts_exact], procs)
         bad = []
         for (k, t), r, ln in zip(ts_exact, impl['ts_exact'], model):
+            if is_skip(r):
+                continue
             if not isinstance(r, int) or int(ln, 2) != r:
                 bad.append(((k, t), ln, r))
+                if not isinstance(r, int):
+                    ctx.fail(f'TimestampConverter.to_xml({k} {t}) fails: {r}', {'stream': 'ts', 'clause': 'exact_argument'},
+                             {'stream': 'ts-exact', 'case': {'kind': k, 'value': t}, 'impl_trace': r})
             elif abs(Fraction(Decimal(t)) * 1000 - r) > Fraction(1, 2):
                 ctx.fail(f'TimestampConverter.to_xml({k} {t}) = {r} is not the nearest millisecond count',
                          {'stream': 'ts', 'clause': 'exact_argument'}, {'stream': 'ts-exact', 'case': {'kind': k, 'value': t}, 'impl_trace': r})
@@ -425,46 +837,107 @@ def run(ctx):
         ctx.count('ts-exact', len(ts_exact), [tuple(x) for x in ts_exact])
 
     # ------------------------------------------------------------------ lexical space of the numeric converters
-    def lex_oracle(kind, s, res, pattern, value_of, want=lambda s: Fraction(s.strip(' \t\r\n'))):
-        """accepted iff in the lexical space; accepted => the exact value"""
-        ok = pattern.match(s) is not None
-        if is_err(res):
-            if ok:
-                ctx.fail(f'{kind}: valid lexical form {s!r} is rejected ({res})', {'stream': 'lexical', 'type': kind, 'clause': 'valid-rejected'},
-                         {'stream': f'{kind}-lex', 'case': {'xml': s}, 'impl_trace': res})
-            return
-        if not ok:
+    lexstat = {}
+
+    def judge(kind, stream, label, s, res, want, value_of, shown=None):
+        """EVERY case of a lexical stream is judged here, on the implementation's answer alone:
+             want is None  (outside the lexical space) -> the converter must refuse (ValueError / ArithmeticError / OverflowError)
+             otherwise                                 -> accepted, and value_of(res) is None (right value) or says what is wrong.
+           Returns 'skip' | 'fail' | 'rejected' | 'accepted'."""
+        st = lexstat.setdefault(stream, {'valid': 0, 'invalid': 0, 'invalid_accepted_by_lenient_python_parser': 0, 'near_miss_classes': {},
+                                         'valid_from_near_miss_generator': 0, 'skipped': 0})
+        if is_skip(res):
+            st['skipped'] += 1
+            return 'skip'
+        rep = {'stream': stream, 'case': {'xml': s, 'generator_class': label}, 'impl_trace': res if shown is None else shown}
+        if want is None:
+            st['invalid'] += 1
+            st['invalid_accepted_by_lenient_python_parser'] += lenient(kind, s)
+            if label != 'gen':
+                st['near_miss_classes'][label] = st['near_miss_classes'].get(label, 0) + 1
+            if is_reject(res):
+                return 'rejected'
+            if is_err(res):
+                ctx.fail(f'{kind}: {s!r} is outside the lexical space and is not refused with a ValueError but ends in {res}',
+                         {'stream': 'lexical', 'type': kind, 'clause': 'unexpected-exception'},
+                         dict(rep, oracle={'verdict': 'fail', 'clause': 'non-lexical forms are rejected with ValueError'}))
+                return 'fail'
             ctx.fail(f'{kind}: {s!r} is outside the lexical space of the schema type but is accepted as {res!r}',
-                     {'stream': 'lexical', 'type': kind}, {'stream': f'{kind}-lex', 'case': {'xml': s}, 'impl_trace': res,
-                                                           'oracle': {'verdict': 'fail', 'clause': 'non-lexical forms are rejected'}})
-            return
-        if value_of(res) != want(s):
-            ctx.fail(f'{kind}: {s!r} is converted to a different value {res!r}', {'stream': 'lexical', 'type': kind, 'clause': 'value'},
-                     {'stream': f'{kind}-lex', 'case': {'xml': s}, 'impl_trace': res})
+                     {'stream': 'lexical', 'type': kind}, dict(rep, oracle={'verdict': 'fail', 'clause': 'non-lexical forms are rejected'}))
+            return 'fail'
+        st['valid'] += 1
+        if label != 'gen':
+            st['valid_from_near_miss_generator'] += 1
+        if is_err(res):
+            ctx.fail(f'{kind}: valid lexical form {s!r} is rejected ({res})', {'stream': 'lexical', 'type': kind, 'clause': 'valid-rejected'},
+                     dict(rep, oracle={'verdict': 'fail', 'clause': 'valid lexical forms are accepted'}))
+            return 'fail'
+        why = value_of(res)
+        if why:
+            ctx.fail(f'{kind}: {s!r} is converted to a different value: {why}', {'stream': 'lexical', 'type': kind, 'clause': 'value'},
+                     dict(rep, oracle={'verdict': 'fail', 'clause': 'the value equals the exact value of the lexical form', 'exact': str(want)}))
+            return 'fail'
+        return 'accepted'
+
+    def fr_of(me_):
+        return Fraction(me_[0]) * Fraction(2) ** me_[1]
+
+    def is_me(x):
+        return isinstance(x, list) and len(x) == 2 and all(isinstance(v, int) and not isinstance(v, bool) for v in x)
 
     def fr_lit(r):
         m, e = r
         return f'(Some ({coqlit(m << max(e, 0))}, {coqlit(1 << max(-e, 0))}))'
 
-    cases = []
-    for s, r in zip(ts_lex, impl['ts_lex']):
-        # the float nearest to n / 1000 (int / int true division is correctly rounded)
-        lex_oracle('timestamp', s, r, XSD_INT, lambda r: Fraction(r[0]) * Fraction(2) ** r[1], lambda s: Fraction(int(s) / 1000))
-        cases.append((slit(s), 'None' if is_err(r) else fr_lit(r)))
-    corr('ts-lex', 'option_eqb fr_eqb', 'ts_to_py_str', cases, lambda i: {'xml': ts_lex[i], 'impl': impl['ts_lex'][i]})
-    ctx.count('ts-lex', len(ts_lex), ts_lex, rejected=sum(1 for r in impl['ts_lex'] if is_err(r)))
+    def lex_counts(stream, lab, results, digit_len):
+        """histograms of a lexical stream: near-miss classes, digit-run lengths of the valid forms"""
+        st = lexstat.get(stream, {})
+        ctx.count(stream, len(lab), [s for _, s in lab], rejected=sum(1 for r in results if is_err(r)), **st,
+                  valid_digit_length_histogram=hist(digit_len))
 
-    cases = []
-    for s, r in zip(int_lex, impl['int_lex']):
-        lex_oracle('integer', s, r, XSD_INT, lambda r: Fraction(int(r)))
-        cases.append((slit(s), 'None' if is_err(r) else f'(Some {coqlit(int(r))})'))
-    corr('int-lex', 'option_eqb Z.eqb', 'int_to_py', cases, lambda i: {'xml': int_lex[i], 'impl': impl['int_lex'][i]})
-    ctx.count('int-lex', len(int_lex), int_lex, rejected=sum(1 for r in impl['int_lex'] if is_err(r)))
-    if not impl.get('int_shared_to_py'):
+    cases, dl = [], []
+    for (label, s), r in zip(ts_lab, impl['ts_lex']):
+        want = ref_int(s)
+
+        def ts_value(r, want=want):
+            if not is_me(r):
+                return f'not a float: {r!r}'
+            x, q = fr_of(r), Fraction(want, 1000)
+            # int / 1000 in binary64: correctly rounded, so within 2^-53 relative and equal to python's own true division
+            if abs(x - q) > abs(q) / (1 << 53) or (abs(want) < 10 ** 300 and x != Fraction(want / 1000)):
+                return f'{float(x)!r} s for {want} ms'
+        v = judge('timestamp', 'ts-lex', label, s, r, want, ts_value)
+        if want is not None:
+            dl.append(bin_len(len(s.strip(XML_WS).lstrip('+-'))))
+        if v != 'skip':
+            cases.append((slit(s), fr_lit(r) if is_me(r) else 'None', {'xml': s, 'impl': r}))
+    corr('ts-lex', 'option_eqb fr_eqb', 'ts_to_py_str', [c[:2] for c in cases], lambda i, cs=cases: cs[i][2])
+    lex_counts('ts-lex', ts_lab, impl['ts_lex'], dl)
+
+    cases, dl = [], []
+    for (label, s), r in zip(int_lab, impl['int_lex']):
+        want = ref_int(s)
+
+        def int_value(r, want=want):
+            if not (isinstance(r, str) and re.fullmatch(r'-?[0-9]+', r)):
+                return f'not an int: {r!r}'
+            if ref_int(r) != want:
+                return f'{r} instead of {want}'
+        v = judge('integer', 'int-lex', label, s, r, want, int_value)
+        if want is not None:
+            dl.append(bin_len(len(s.strip(XML_WS).lstrip('+-'))))
+        if v != 'skip':
+            okr = isinstance(r, str) and re.fullmatch(r'-?[0-9]+', r)
+            cases.append((slit(s), f'(Some {coqlit(int(r))})' if okr else 'None', {'xml': s, 'impl': r}))
+    corr('int-lex', 'option_eqb Z.eqb', 'int_to_py', [c[:2] for c in cases], lambda i, cs=cases: cs[i][2])
+    lex_counts('int-lex', int_lab, impl['int_lex'], dl)
+    if 'int_lex' in impl and not impl.get('int_shared_to_py') and not any(is_skip(r) for r in impl['int_lex']):
         ctx.broken('correspondence', 'int-lex', 'UnsignedInt/UnsignedLongConverter no longer share IntegerConverter.to_py')
 
     cases = []
     for n, (s, back) in zip(int_vals, impl['int_vals']):
+        if is_skip(s):
+            continue
         if back != str(n) or s != str(n):
             ctx.fail(f'integer {n} does not survive Python -> XML -> Python: xml {s!r}, back {back!r}', {'stream': 'int', 'clause': 'py_xml_py'},
                      {'stream': 'int-vals', 'case': {'value': n}, 'impl_trace': [s, back]})
@@ -479,6 +952,8 @@ def run(ctx):
     cases, n18 = [], 0
     for v, (s, back) in zip(dec_vals, impl['dec_vals']):
         neg, digs, e = v
+        if is_skip(s):
+            continue
         if len(digs) <= 18:
             n18 += 1
             why = None
@@ -502,61 +977,88 @@ def run(ctx):
               exponent_in_pm18=sum(1 for v in dec_vals if -18 <= v[2] <= 18))
     ctx.sample({'stream': 'dec-vals', 'decimal (neg, digits, exp)': dec_vals[0], 'impl [to_xml, to_py(to_xml)]': impl['dec_vals'][0]})
 
-    cases, ncanon, nvalue = [], 0, 0
-    for s, (r, back) in zip(dec_lex, impl['dec_lex']):
-        lex_oracle('decimal', s, r, XSD_DEC, dec_fr)
-        if not is_err(r):
-            core = s.strip(' \t\r\n')
-            if XSD_DEC.match(s):
-                # XML -> Python -> XML keeps the numeric value of every decimal whose VALUE has at most 18 digits
-                # (leading zeros and trailing fraction zeros of the lexical form do not count)
-                ip_, _, fp_ = core.lstrip('+-').partition('.')
-                ip_, fp_ = ip_.lstrip('0'), fp_.rstrip('0')
-                sig = len(ip_) + len(fp_) if ip_ else len(fp_.lstrip('0'))
-                if sig <= 18 and len(fp_) <= 18:
-                    nvalue += 1
-                    why = None
-                    if not isinstance(back, str) or is_err(back):
-                        why = f'to_xml fails: {back}'
-                    elif 'e' in back.lower() or not XSD_DEC.match(back):
-                        why = f'written back as {back!r}, which is not a plain xsd:decimal'
-                    elif Fraction(back) != Fraction(core):
-                        why = f'written back as {back!r}: the numeric value changed'
-                    if why:
-                        ctx.fail(f'xsd:decimal {core!r} ({sig} significant digits): {why}', {'stream': 'decimal', 'clause': 'xml_py_xml_value'},
-                                 {'stream': 'dec-lex', 'case': {'xml': s}, 'impl_trace': [r, back],
-                                  'oracle': {'verdict': 'fail', 'clause': 'value(to_xml(to_py(s))) == value(s) for values of up to 18 digits'}})
+    cases, ncanon, nvalue, dl, fl = [], 0, 0, [], []
+    for (label, s), (r, back) in zip(dec_lab, impl['dec_lex']):
+        want = ref_dec(s)
+
+        def dec_value(r, want=want):
+            if not (isinstance(r, list) and len(r) == 3 and isinstance(r[1], str) and re.fullmatch('[0-9]+', r[1]) and isinstance(r[2], int)):
+                return f'not a finite Decimal: {r!r}'
+            if Fraction((-1 if r[0] else 1) * dval(r[1])) * Fraction(10) ** r[2] != want:
+                return f'Decimal{tuple(r)!r} instead of {want}'
+        v = judge('decimal', 'dec-lex', label, s, r, want, dec_value)
+        if v == 'skip':
+            continue
+        core = s.strip(XML_WS)
+        if want is not None:
+            ip_, _, fp_ = core.lstrip('+-').partition('.')
+            dl.append(bin_len(len(ip_)))
+            fl.append(bin_len(len(fp_)))
+        if v == 'accepted':
+            # XML -> Python -> XML keeps the numeric value of every decimal whose VALUE has at most 18 digits
+            # (leading zeros and trailing fraction zeros of the lexical form do not count)
+            ip_, fp_ = ip_.lstrip('0'), fp_.rstrip('0')
+            sig = len(ip_) + len(fp_) if ip_ else len(fp_.lstrip('0'))
+            if sig <= 18 and len(fp_) <= 18:
+                nvalue += 1
+                why = None
+                if not isinstance(back, str) or is_err(back):
+                    why = f'to_xml fails: {back}'
+                elif 'e' in back.lower() or not XSD_DEC.match(back):
+                    why = f'written back as {back!r}, which is not a plain xsd:decimal'
+                elif ref_dec(back) != want:
+                    why = f'written back as {back!r}: the numeric value changed'
+                if why:
+                    ctx.fail(f'xsd:decimal {core!r} ({sig} significant digits): {why}', {'stream': 'decimal', 'clause': 'xml_py_xml_value'},
+                             {'stream': 'dec-lex', 'case': {'xml': s}, 'impl_trace': [r, back],
+                              'oracle': {'verdict': 'fail', 'clause': 'value(to_xml(to_py(s))) == value(s) for values of up to 18 digits'}})
             canon = re.fullmatch(r'-?(0|[1-9][0-9]*)(\.[0-9]*[1-9])?', core) and len(re.sub(r'[-.]', '', core).lstrip('0')) <= 18 \
                 and len(core.replace('-', '').replace('.', '')) <= 18
-            if canon and XSD_DEC.match(s):
+            if canon:
                 ncanon += 1
                 if back != core:
                     ctx.fail(f'canonical decimal {core!r} is written back as {back!r}', {'stream': 'decimal', 'clause': 'xml_py_xml'},
                              {'stream': 'dec-lex', 'case': {'xml': s}, 'impl_trace': [r, back]})
-        cases.append((slit(s), 'None' if is_err(r) else f'(Some {coqlit((r[0], r[1], r[2]))})'))
-    corr('dec-lex', 'option_eqb dec_out_eqb', 'fun s => option_map dec_out (dec_to_py s)', cases,
-         lambda i: {'xml': dec_lex[i], 'impl': impl['dec_lex'][i]})
+        okr = isinstance(r, list) and len(r) == 3
+        cases.append((slit(s), f'(Some {coqlit((r[0], r[1], r[2]))})' if okr else 'None', {'xml': s, 'impl': [r, back]}))
+    corr('dec-lex', 'option_eqb dec_out_eqb', 'fun s => option_map dec_out (dec_to_py s)', [c[:2] for c in cases],
+         lambda i, cs=cases: cs[i][2])
+    st = lexstat.get('dec-lex', {})
     ctx.count('dec-lex', len(dec_lex), dec_lex, rejected=sum(1 for r, _ in impl['dec_lex'] if is_err(r)), canonical_roundtrips=ncanon,
-              value_roundtrips_up_to_18_digits=nvalue)
+              value_roundtrips_up_to_18_digits=nvalue, **st, valid_integer_digits_histogram=hist(dl), valid_fraction_digits_histogram=hist(fl))
 
     # ------------------------------------------------------------------ booleans (known finding: never rejects)
     cases = []
+    nbool = {'lexical': 0, 'non_lexical': 0, 'non_lexical_coerced_to_false (known finding)': 0}
     for s, r in zip(bool_lex, impl['bool_lex']):
+        if is_skip(r):
+            continue
         if s in ('true', 'false', '1', '0'):
+            nbool['lexical'] += 1
             if r is not (s in ('true', '1')):
                 ctx.fail(f'boolean {s!r} is converted to {r!r}', {'stream': 'bool', 'clause': 'value'},
                          {'stream': 'bool-lex', 'case': {'xml': s}, 'impl_trace': r})
-        elif not is_err(r):
-            ctx.fail(f'boolean: {s!r} is outside the lexical space of xsd:boolean but is coerced to {r!r}',
-                     {'stream': 'lexical', 'type': 'boolean'}, {'stream': 'bool-lex', 'case': {'xml': s}, 'impl_trace': r,
-                                                                'oracle': {'verdict': 'fail', 'clause': 'non-lexical forms are rejected'}})
+        else:
+            nbool['non_lexical'] += 1
+            if r is False:
+                # the known finding (every other string reads as False; asserted by tests/test_dataconverters.py)
+                nbool['non_lexical_coerced_to_false (known finding)'] += 1
+                ctx.fail(f'boolean: {s!r} is outside the lexical space of xsd:boolean but is coerced to {r!r}',
+                         {'stream': 'lexical', 'type': 'boolean'}, {'stream': 'bool-lex', 'case': {'xml': s}, 'impl_trace': r,
+                                                                    'oracle': {'verdict': 'fail', 'clause': 'non-lexical forms are rejected'}})
+            elif not is_reject(r):
+                # anything else than False or a ValueError is NOT the known finding: 'True', ' true', '01' read as True, a crash ...
+                ctx.fail(f'boolean: {s!r} is outside the lexical space of xsd:boolean but gives {r!r}',
+                         {'stream': 'lexical', 'type': 'boolean-not-false'},
+                         {'stream': 'bool-lex', 'case': {'xml': s}, 'impl_trace': r,
+                          'oracle': {'verdict': 'fail', 'clause': 'non-lexical forms are rejected (known finding: read as False), never read as True'}})
         cases.append((slit(s), coqlit(bool(r)) if isinstance(r, bool) else 'true'))
         if not isinstance(r, bool):
             cases[-1] = (slit(s), Raw('(negb (bool_to_py ' + slit(s) + '))'))   # model never rejects: force a mismatch
     corr('bool-lex', 'Bool.eqb', 'bool_to_py', cases, lambda i: {'xml': bool_lex[i], 'impl': impl['bool_lex'][i]})
-    if impl.get('bool_to_xml') != ['true', 'false']:
+    if impl.get('bool_to_xml') != ['true', 'false'] and not any(is_skip(r) for r in impl['bool_lex']):
         ctx.broken('correspondence', 'bool-lex', f'to_xml gives {impl.get("bool_to_xml")}')
-    ctx.count('bool-lex', len(bool_lex), bool_lex, lexical=sum(1 for s in bool_lex if s in ('true', 'false', '1', '0')))
+    ctx.count('bool-lex', len(bool_lex), bool_lex, **nbool)
 
     # ------------------------------------------------------------------ enumerations
     cases, keys, desc = [], [], []
@@ -577,6 +1079,8 @@ def run(ctx):
     cases, nneg, nover = [], 0, 0
     for (kind, txt), (s, tus, back_us, same) in zip(dur_vals, impl['dur_vals']):
         val = Fraction(Decimal(txt)) if kind != 'float' else Fraction(float(txt))
+        if is_skip(s):
+            continue
         if val >= 86400 * 10 ** 9:      # beyond timedelta.max: outside the quantifier, must not be written
             nover += 1
             if s != 'OVERFLOW':
@@ -604,32 +1108,63 @@ def run(ctx):
               with_fraction=sum(1 for c in cases if '.' in c[1]), hours=sum(1 for c in cases if 'H' in c[1]))
     ctx.sample({'stream': 'dur-vals', 'value': dur_vals[0], 'impl [xml, us, us read back, equal]': impl['dur_vals'][0]})
 
-    cases, nskip, desc = [], 0, []
-    for s, (r, back) in zip(dur_lex, impl['dur_lex']):
-        ok = XSD_DUR.match(s) is not None
-        if ok and r == 'REJECT':
-            ctx.fail(f'duration: valid lexical form {s!r} is rejected', {'stream': 'lexical', 'type': 'duration', 'clause': 'valid-rejected'},
-                     {'stream': 'dur-lex', 'case': {'xml': s}, 'impl_trace': r})
-        if not ok and r != 'REJECT':
-            ctx.fail(f'duration: {s!r} is outside the lexical space but is accepted as {r!r}', {'stream': 'lexical', 'type': 'duration'},
-                     {'stream': 'dur-lex', 'case': {'xml': s}, 'impl_trace': r, 'oracle': {'verdict': 'fail', 'clause': 'non-lexical forms are rejected'}})
-        m = re.search(r'\.([0-9]+)S', s)
-        if m and len(m.group(1)) > 6 and m.group(1)[6:10].ljust(4, '0') in ('4999', '5000'):
-            nskip += 1     # next to a rounding tie of the 7th digit: the binary64 value decides, outside the model
+    # XML -> Python: every case is judged against the exact rational value of the lexical form (Fraction arithmetic, harness
+    # side).  What the code does: float('<seconds>.<fraction>') (correctly rounded), timedelta rounds it half-even to
+    # microseconds, total_seconds() divides by 10**6: a fraction of any length is ROUNDED to the microsecond.  Clause:
+    #   value <= 2^31 s       : |parsed - exact| < 1 us                       (proved: C18_duration_parse_within_1us)
+    #   beyond (binary64 has no microseconds there): |parsed - exact| <= 1 us + exact * 2^-52
+    #   value >= timedelta.max + 1 us: refused (OverflowError); within 1 us of that bound either answer
+    cases, fl, sl, nclaimed, nover = [], [], [], 0, 0
+    for (label, s), (r, back) in zip(dur_lab, impl['dur_lex']):
+        want = ref_dur(s)
+        over = want is not None and want >= DUR_MAX - US
+        if over and is_reject(r):
+            nover += 1
+            lexstat.setdefault('dur-lex', {}).setdefault('valid_beyond_timedelta_max_refused', 0)
+            lexstat['dur-lex']['valid_beyond_timedelta_max_refused'] += 1
+            v = 'overflow'
+        else:
+            def dur_value(r, want=want):
+                if not is_me(r):
+                    return f'not a float: {r!r}'
+                x = fr_of(r)
+                if want >= DUR_MAX:
+                    return f'{float(x)!r} s is returned for a duration beyond timedelta.max'
+                tol = US if want <= DUR_1US_RANGE else US + want / (1 << 52)
+                if not abs(x - want) < tol:
+                    return (f'parsed as {float(x)!r} s, the exact value is {str(want) if want.denominator == 1 else float(want)!r} s: off by '
+                            f'{float(abs(x - want) / US):.6g} us, allowed < {float(tol / US):.6g} us')
+            v = judge('duration', 'dur-lex', label, s, r, want, dur_value)
+        if want is not None:
+            m = re.search(r'\.([0-9]+)S', s)
+            fl.append(bin_len(len(m.group(1)) if m else 0))
+            m = re.search(r'([0-9]+)(\.[0-9]+)?S', s)
+            sl.append(bin_len(len(m.group(1).lstrip('0')) if m else 0))
+        if v == 'skip':
             continue
-        if r in ('REJECT', 'OVERFLOW'):
+        if v == 'accepted' and want <= DUR_1US_RANGE:
+            nclaimed += 1
+            # XML -> Python -> XML: what is written back denotes the same duration within one microsecond
+            wb = ref_dur(back) if isinstance(back, str) else None
+            if wb is None or not abs(wb - want) < US:
+                ctx.fail(f'duration {s!r} is read and written back as {back!r}: '
+                         + ('not a duration' if wb is None else f'off by {float(abs(wb - want) / US):.6g} us'),
+                         {'stream': 'duration', 'clause': 'xml_py_xml'},
+                         {'stream': 'dur-lex', 'case': {'xml': s}, 'impl_trace': [r, back],
+                          'oracle': {'verdict': 'fail', 'clause': '|value(to_xml(to_py(s))) - value(s)| < 1 us'}})
+        if r == 'REJECT' or r == 'OVERFLOW':
             exp = f'({coqlit(-1 if r == "REJECT" else -2)}, 1)'
-        elif isinstance(r, list):
+        elif is_me(r):
             exp = f'({coqlit(r[0] << max(r[1], 0))}, {coqlit(1 << max(-r[1], 0))})'
         else:
             exp = '((-9), 1)'
-        cases.append((slit(s), exp))
-        desc.append({'xml': s, 'impl': r})
-    # parse_duration returns timedelta.total_seconds() = microseconds / 10**6 (int / int, correctly rounded)
-    corr('dur-lex', 'fun a b => (fst a =? D_UNMODELLED) || fr_eqb a b',
-         'fun s => let u := duration_to_py s in if u <? 0 then (u, 1) else rnd53 u 1000000', cases, lambda i, d=desc: d[i])
+        cases.append((slit(s), exp, {'xml': s, 'impl': r}))
+    # binary64-faithful model: float(), timedelta's rounding and total_seconds() are all modelled, nothing is skipped
+    corr('dur-lex', 'fr_eqb', 'duration_to_py_f', [c[:2] for c in cases], lambda i, cs=cases: cs[i][2])
+    st = lexstat.get('dur-lex', {})
     ctx.count('dur-lex', len(dur_lex), dur_lex, rejected=sum(1 for r, _ in impl['dur_lex'] if r == 'REJECT'),
-              overflow=sum(1 for r, _ in impl['dur_lex'] if r == 'OVERFLOW'), tie_skipped=nskip)
+              overflow=sum(1 for r, _ in impl['dur_lex'] if r == 'OVERFLOW'), judged_within_1us_claim=nclaimed, **st,
+              valid_fraction_digits_histogram=hist(fl), valid_seconds_field_digits_histogram=hist(sl))
 
     # ------------------------------------------------------------------ date / time
     def oz(x):
@@ -642,6 +1177,8 @@ def run(ctx):
 
     cases = []
     for v, (s, back, same) in zip(dt_vals, impl['dt_vals']):
+        if is_skip(s):
+            continue
         if is_err(s) or same is not True:
             ctx.fail(f'date/time {v} is written as {s!r} and read back as {back!r}', {'stream': 'datetime', 'clause': 'py_xml_py'},
                      {'stream': 'dt-vals', 'case': {'value': v}, 'impl_trace': [s, back, same]})
@@ -654,35 +1191,73 @@ def run(ctx):
     ctx.count('dt-vals', len(dt_vals), [repr(v) for v in dt_vals], with_time=sum(1 for v in dt_vals if v[3]), end_of_day=sum(1 for v in dt_vals if v[4]),
               with_tz=sum(1 for v in dt_vals if v[5] is not None))
 
-    cases, desc, ndom = [], [], 0
-    for s, (r, back) in zip(dt_lex, impl['dt_lex']):
-        ok = XSD_DT.match(s) is not None
-        if ok and is_err(r):
-            ctx.fail(f'date/time: valid lexical form {s!r} is rejected', {'stream': 'lexical', 'type': 'datetime', 'clause': 'valid-rejected'},
-                     {'stream': 'dt-lex', 'case': {'xml': s}, 'impl_trace': r})
-        if not ok and not is_err(r):
-            ctx.fail(f'date/time: {s!r} is outside the lexical space but is accepted as {r!r}', {'stream': 'lexical', 'type': 'datetime'},
-                     {'stream': 'dt-lex', 'case': {'xml': s}, 'impl_trace': r, 'oracle': {'verdict': 'fail', 'clause': 'non-lexical forms are rejected'}})
-        if not is_err(r) and r[2] is not None:
-            y, mo, d = r[0], r[1], r[2]
-            dim = [31, 29 if (y % 4 == 0 and (y % 100 != 0 or y % 400 == 0)) else 28, 31, 30, 31, 30, 31, 31, 30, 31, 30, 31][mo - 1]
-            if d > dim:
-                ndom += 1     # e.g. 2020-02-31: accepted, kept as it is and written back unchanged (no coercion): recorded only
-                if back != s.rstrip('\n') and XSD_DT.match(s) and '.' not in s and '+00:00' not in s and '-00:00' not in s and '24:00:00' not in s:
-                    ctx.fail(f'date/time: {s!r} (day {d} of month {mo} does not exist) is accepted and changed to {back!r}',
-                             {'stream': 'lexical', 'type': 'date-day-of-month'},
-                             {'stream': 'dt-lex', 'case': {'xml': s}, 'impl_trace': [r, back]})
-        if is_err(r):
+    # XML -> Python: every case is judged against the reference reading of the lexical form: year, month, day, hour, minute,
+    # end-of-day flag and time zone offset exactly, the second field (a binary64 in the code) within one microsecond of its
+    # exact decimal value; what is written back must denote the same value.
+    def dt_fields_wrong(r, want):
+        if not (isinstance(r, list) and len(r) == 6):
+            return f'not an XsdDateInformation: {r!r}'
+        y, mo, d, t, eod, tz = r
+        wy, wmo, wd, wt, weod, wtz = want
+        if (y, mo, d, bool(eod), tz) != (wy, wmo, wd, weod, wtz):
+            return f'(year, month, day, end_of_day, tz) = {(y, mo, d, bool(eod), tz)} instead of {(wy, wmo, wd, weod, wtz)}'
+        if (t is None) != (wt is None):
+            return f'time of day {t!r} instead of {wt!r}'
+        if t is not None:
+            if not (isinstance(t, list) and len(t) == 5 and is_me(t[4])):
+                return f'time of day {t!r}'
+            if (t[0], t[1]) != wt[:2]:
+                return f'(hour, minute) = {(t[0], t[1])} instead of {wt[:2]}'
+            if not abs(fr_of(t[4]) - wt[2]) < US:
+                return f'second = {float(fr_of(t[4]))!r} instead of {float(wt[2])!r}: off by {float(abs(fr_of(t[4]) - wt[2]) / US):.6g} us'
+
+    cases, sec_cases, ndom, fl, yl, shapes = [], [], 0, [], [], []
+    for (label, s), (r, back) in zip(dt_lab, impl['dt_lex']):
+        want = ref_dt(s)
+        v = judge('datetime', 'dt-lex', label, s, r, want, lambda r, want=want: dt_fields_wrong(r, want))
+        if v == 'skip':
+            continue
+        if want is not None:
+            m = re.search(r':[0-9]{2}\.([0-9]+)', s)
+            fl.append(bin_len(len(m.group(1)) if m else 0))
+            yl.append(bin_len(len(re.match(r'-?([0-9]+)', s).group(1))))
+            shapes.append('gYear' if want[1] is None else 'gYearMonth' if want[2] is None else 'date' if want[3] is None and not want[4] else
+                          'dateTime-end-of-day' if want[4] else 'dateTime')
+        if v == 'accepted':
+            wb = ref_dt(back) if isinstance(back, str) else None
+            why = None
+            if wb is None:
+                why = 'not in the lexical space'
+            elif wb[:3] + wb[4:] != want[:3] + want[4:] or (wb[3] is None) != (want[3] is None):
+                why = 'another value'
+            elif wb[3] is not None and (wb[3][:2] != want[3][:2] or not abs(wb[3][2] - want[3][2]) < US):
+                why = f'another time of day ({float(abs(wb[3][2] - want[3][2]) / US):.6g} us)'
+            if why:
+                ctx.fail(f'date/time {s!r} is read and written back as {back!r}: {why}', {'stream': 'datetime', 'clause': 'xml_py_xml'},
+                         {'stream': 'dt-lex', 'case': {'xml': s}, 'impl_trace': [r, back],
+                          'oracle': {'verdict': 'fail', 'clause': 'value(str(parse_date_time(s))) == value(s) within 1 us'}})
+            if want[2] is not None:
+                y, mo, d = want[:3]
+                dim = [31, 29 if (y % 4 == 0 and (y % 100 != 0 or y % 400 == 0)) else 28, 31, 30, 31, 30, 31, 31, 30, 31, 30, 31][mo - 1]
+                if d > dim:
+                    ndom += 1     # e.g. 2020-02-31: accepted, kept as it is and written back unchanged (no coercion): recorded only
+        okr = isinstance(r, list) and len(r) == 6
+        t = r[3] if okr else None
+        sec_cases.append((slit(s), fr_lit(t[4]) if t is not None and is_me(t[4]) else 'None', {'xml': s, 'impl': r}))
+        if not okr:
             exp = 'DtReject'
         else:
-            t = r[3]
             if t is not None and not t[3]:
-                continue     # more than 6 fraction digits: outside the microsecond model
+                continue     # more than 6 fraction digits: outside the microsecond model of parse_dt (the float is compared in dt-sec)
             exp = f'(DtOk {dtlit([r[0], r[1], r[2], t and t[:3], r[4], r[5]])})'
-        cases.append((slit(s), exp))
-        desc.append({'xml': s, 'impl': r})
-    corr('dt-lex', 'dtres_eqb', 'dt_to_py', cases, lambda i, d=desc: d[i])
-    ctx.count('dt-lex', len(dt_lex), dt_lex, rejected=sum(1 for r, _ in impl['dt_lex'] if is_err(r)), nonexistent_day_accepted=ndom)
+        cases.append((slit(s), exp, {'xml': s, 'impl': r}))
+    corr('dt-lex', 'dtres_eqb', 'dt_to_py', [c[:2] for c in cases], lambda i, cs=cases: cs[i][2])
+    # the second field as a binary64, for a fraction of any length
+    corr('dt-sec', 'option_eqb fr_eqb', 'dt_second_float', [c[:2] for c in sec_cases], lambda i, cs=sec_cases: cs[i][2])
+    st = lexstat.get('dt-lex', {})
+    ctx.count('dt-lex', len(dt_lex), dt_lex, rejected=sum(1 for r, _ in impl['dt_lex'] if is_err(r)), nonexistent_day_accepted=ndom, **st,
+              valid_fraction_digits_histogram=hist(fl), valid_year_digits_histogram=hist(yl), valid_shapes=hist(shapes))
+    ctx.count('dt-sec', len(sec_cases), [c[0] for c in sec_cases], with_time_of_day=sum(1 for c in sec_cases if c[1] != 'None'))
 
     # ------------------------------------------------------------------ the property classes use these converters
     want = {'TimestampAttributeProperty': 'TimestampConverter', 'CurrentTimestampAttributeProperty': 'TimestampConverter',
@@ -703,29 +1278,39 @@ def run(ctx):
             ctx.broken('theorem', 'grep gate', hits)
         ctx.coqchk('SDC.Props.C18')
     return ctx.finish(
-        rule='every case is run on the real converter classes / isoduration functions; the oracle (round trips exact, < 1 ms, no exponent, '
-             'accepted iff in the lexical space of the schema type, independent regular expressions) is evaluated on the implementation\'s '
-             'answers; the model is evaluated on the same inputs and must give the same strings / values (floats compared as exact '
-             'mantissa-exponent pairs). ts-window is exhaustive over the dense window; distinct = distinct inputs per stream.',
-        assumptions=['binary64 arithmetic of the host is IEEE-754 round-to-nearest-even (int/int true division, float*int, round())',
-                     'decimal.Decimal.__format__(\'f\'), Decimal(str), int(str), float(str) of short decimal strings, repr(float) and '
-                     'datetime.timedelta microsecond rounding behave as modelled (validated differentially only)',
+        rule='every case is run on the real converter classes / isoduration functions (the implementation script guards every call: an '
+             'exception of any kind, a wrong result type or a hang is the result of that case); the oracle judges EVERY case of every '
+             'lexical stream directly on the implementation\'s answer against harness-side reference semantics (explicit ASCII character '
+             'classes, exact integer / Fraction arithmetic, no int() / float() / Decimal() / datetime): outside the lexical space -> '
+             'refused with ValueError; inside -> accepted with exactly the value of the lexical form (durations: within 1 us up to 2^31 s, '
+             'beyond that 1 us + value * 2^-52; date/time: all fields exactly, seconds within 1 us) and written back as the same value; '
+             'round trips exact, < 1 ms, no exponent.  The model is evaluated on the same inputs and must give the same strings / values '
+             '(floats compared as exact mantissa-exponent pairs). ts-window is exhaustive over the dense window; distinct = distinct '
+             'inputs per stream; near_miss_classes = invalid forms per generator class (forms that python\'s own parsers take, or that '
+             'start / end like a valid form).',
+        assumptions=['binary64 arithmetic of the host is IEEE-754 round-to-nearest-even (int/int true division, float*int, round(), float(str) '
+                     'correctly rounded)',
+                     'decimal.Decimal.__format__(\'f\'), Decimal(str), int(str), repr(float) and the microsecond rounding of datetime.timedelta '
+                     '(CPython _datetimemodule.c accum(): floor + binary64 product of the fraction by 1e6 + round-half-even) behave as '
+                     'modelled (validated differentially only)',
                      'timestamps: values in the normal range of binary64; py -> xml -> py claimed for 1000 x <= 2^50',
-                     'durations / date-time seconds: microsecond resolution; fractions with more than 6 digits next to a rounding tie and '
-                     'seconds fields above 10^5 with a fraction are outside the model'],
+                     'durations XML -> Python: |parsed - exact| < 1 us is claimed and proved for lexical forms of any fraction length with a '
+                     'value up to 2^31 s (binary64 cannot hold microseconds far beyond that); values below 2^-1022 (subnormal) are outside rnd53',
+                     'date/time: parse_dt models the second field at microsecond resolution (more than 6 fraction digits: only the binary64 '
+                     'of the second field is modelled, stream dt-sec)'],
         trusted_base=['extraction: ExtrOcamlBasic only; ocaml/driver_c18.ml + zutil.inc (timestamp streams)',
-                      'correspondence harness harness/impl/c18_impl.py and the independent regular expressions of harness/props/c18.py',
+                      'correspondence harness harness/impl/c18_impl.py and the reference semantics / regular expressions of harness/props/c18.py',
                       'the proposed repairs fixes/C18_*.diff are part of the checked tree (the model is the repaired code)'],
         not_modelled=['DecimalConverter with float arguments (_float_to_xml, USE_DECIMAL_TYPE=False)', 'non-finite Decimals (NaN, Infinity) in to_xml',
                       'value-range facets (unsignedInt / unsignedLong bounds, negative timestamps) - enforced by schema validation, not by the converters',
-                      'binary64 second field of XsdDateInformation beyond microsecond resolution', 'subnormal / overflowing floats'])
+                      'XsdDateInformation.__str__ for second fields with more than 6 fraction digits (repr(float))', 'subnormal / overflowing floats'])
 
 
 def replay(ctx, rep):
     import json
     case = rep.get('case', {})
     stream = rep.get('stream', '')
-    key = {'ts-window': 'ts_ns', 'ts-sampled': 'ts_ns', 'timestamp-lex': 'ts_lex', 'integer-lex': 'int_lex', 'decimal-lex': 'dec_lex',
+    key = {'ts-window': 'ts_ns', 'ts-sampled': 'ts_ns', 'ts-lex': 'ts_lex', 'int-lex': 'int_lex', 'dec-lex': 'dec_lex',
            'bool-lex': 'bool_lex', 'dur-lex': 'dur_lex', 'dt-lex': 'dt_lex'}.get(stream)
     payload = {}
     if key and 'xml' in case:
